@@ -7,7 +7,7 @@
 # property-breaking change from the tree stay part of the check even when random generation moves elsewhere.
 set -u
 cd /verif
-want() { [ $# -eq 0 ] && return 0; local id="$1" prop="$2"; shift 2; for a in "$@"; do [ "$a" = "$id" ] || [ "$a" = "$prop" ] && return 0; done; return 1; }
+want() { local id="$1" prop="$2"; shift 2; [ $# -eq 0 ] && return 0; for a in "$@"; do [ "$a" = "$id" ] || [ "$a" = "$prop" ] && return 0; done; return 1; }
 collect() { # id prop patch
     local id="$1" prop="$2" patch="$3"
     if ! git -C /repo diff --quiet; then echo "refusing: /repo has uncommitted changes"; exit 2; fi
@@ -23,16 +23,17 @@ collect() { # id prop patch
     fi
 }
 ARGS=("$@")
+shopt -s nullglob
 for d in seeded/*/; do
     id=$(basename "$d"); prop=${id%%-*}
-    want "$id" "$prop" "${ARGS[@]}" || continue
+    want "$id" "$prop" ${ARGS[@]+"${ARGS[@]}"} || continue
     patch="$d/patch.diff"; [ -f "$d/patch.rebased.diff" ] && patch="$d/patch.rebased.diff"
     collect "$id" "$prop" "$(realpath "$patch")"
 done
 while IFS=$'\t' read -r name props desc; do
     [ -z "$name" ] && continue
     for prop in $props; do
-        want "$name" "$prop" "${ARGS[@]}" || continue
+        want "$name" "$prop" ${ARGS[@]+"${ARGS[@]}"} || continue
         collect "${name%%-*}" "$prop" "$(realpath "mutants/$name.patch")"
     done
 done < mutants/INDEX.tsv
